@@ -166,6 +166,8 @@ def msg_def(rng, did):
         if rng.random() < 0.4:
             v["dmsg"] = [cp(rng.choice(MSGS) + "!")]
         v["docs"] = [cp(rng.choice(DOC_LINES)) for _ in range(rng.choice([0, 0, 1, 1, 2, 3, 4]))]
+        if rng.random() < 0.3:
+            v["docattrs"] = [(rng.randrange(len(v["docs"]) + 1), rng.choice(["#[doc(hidden)]", '#[doc(alias = "nick")]']))]
         vs.append(v)
     return enum(did, vs, style=rng.choice(["none", "none", "snake_case", "SCREAMING-KEBAB-CASE", "title_case", "camelCase"]),
                 prefix=rng.choice([None, None, "p_"]), split=rng.randrange(2), aci=rng.random() < 0.3)
@@ -182,20 +184,23 @@ def msg_special(did, k):
 
 def msg_module(E):
     src = SG.HEADER + D.print_enum(E, ["EnumMessage"]) + "\n"
+    if E["id"] % 2:
+        src += D.decoy_impl(E, "EnumMessage")
     did = E["id"]
     body = []
     for i, v in enumerate(E["variants"]):
         k = i + 1
         body += ["    {", "        let r = catch(|| {", "            let x = %s;" % D.ctor(E, v, 1),
                  "            use strum::EnumMessage;",
-                 '            o.line(&format!("{{\\"op\\":\\"msg\\",\\"def\\":%d,\\"i\\":%d,\\"message\\":{},\\"detail\\":{},\\"doc\\":{},\\"sers\\":{}}}", jopt_cps(x.get_message()), jopt_cps(x.get_detailed_message()), jopt_cps(x.get_documentation()), jstrs(x.get_serializations())));' % (did, k),
+                 '            o.line(&format!("{{\\"op\\":\\"msg\\",\\"def\\":%d,\\"i\\":%d,\\"message\\":{},\\"detail\\":{},\\"doc\\":{},\\"sers\\":{}}}", jopt_cps(EnumMessage::get_message(&x)), jopt_cps(EnumMessage::get_detailed_message(&x)), jopt_cps(EnumMessage::get_documentation(&x)), jstrs(EnumMessage::get_serializations(&x))));' % (did, k),
                  "        });", SG._ev_panic(did, k), "    }"]
     src += IG.RUN + "\n".join(body) + "\n}\n"
     return src
 
 
 # --------------------------------------------------------------------------- EnumProperty (C15)
-KEYS = ["color", "Color", "n", "size", "type", "fn", "self", "key_1", "k", "K", "length", "is_ok", "x", "crate", "red"]
+KEYS = ["color", "Color", "n", "size", "type", "fn", "self", "key_1", "k", "K", "length", "is_ok", "x", "crate", "red",
+        "disabled", "default", "serialize", "message", "props", "gr\u00f6\u00dfe", "\u00f6ffnen", "cl\u00e9"]
 INTS = [(0, "0"), (1, "1"), (-1, "-1"), (42, "42"), (255, "0xFF"), (1000, "1_000"), (7, "7i64"), (-17, "-17"),
         (2**63 - 1, "9223372036854775807"), (-2**63, "-9223372036854775808"), (8, "0o10"), (5, "0b101"), (-255, "-0xff"),
         (255, "0xFFi64"), (493, "0o755i64"), (10, "0b1010_i64"), (255, "0xff_i64"), (1000, "1_000i64"), (16, "16i64")]
@@ -252,6 +257,8 @@ def prop_special(did, k):
 
 def prop_module(E, rng):
     src = SG.HEADER + D.print_enum(E, ["EnumProperty"]) + "\n"
+    if E["id"] % 2:
+        src += D.decoy_impl(E, "EnumProperty")
     did = E["id"]
     allkeys = []
     for v in E["variants"]:
@@ -268,9 +275,9 @@ def prop_module(E, rng):
     for i, v in enumerate(E["variants"]):
         k = i + 1
         body += ["    {", "        let r = catch(|| {", "            let x = %s;" % D.ctor(E, v, 1), "            use strum::EnumProperty;",
-                 "            let strs: Vec<String> = keys.iter().map(|q| jopt_cps(x.get_str(q))).collect();",
-                 "            let ints: Vec<String> = keys.iter().map(|q| match x.get_int(q) { Some(n) => format!(\"[{}]\", jcps(&n.to_string())), None => \"[]\".to_string() }).collect();",
-                 "            let bools: Vec<String> = keys.iter().map(|q| match x.get_bool(q) { Some(b) => format!(\"[[{}]]\", b as u8), None => \"[]\".to_string() }).collect();",
+                 "            let strs: Vec<String> = keys.iter().map(|q| jopt_cps(EnumProperty::get_str(&x, q))).collect();",
+                 "            let ints: Vec<String> = keys.iter().map(|q| match EnumProperty::get_int(&x, q) { Some(n) => format!(\"[{}]\", jcps(&n.to_string())), None => \"[]\".to_string() }).collect();",
+                 "            let bools: Vec<String> = keys.iter().map(|q| match EnumProperty::get_bool(&x, q) { Some(b) => format!(\"[[{}]]\", b as u8), None => \"[]\".to_string() }).collect();",
                  '            o.line(&format!("{{\\"op\\":\\"prop\\",\\"def\\":%d,\\"i\\":%d,\\"keys\\":{},\\"strs\\":{},\\"ints\\":{},\\"bools\\":{}}}", jstrs(&keys), jlist(&strs), jlist(&ints), jlist(&bools)));' % (did, k),
                  "        });", SG._ev_panic(did, k), "    }"]
     src += IG.RUN + "\n".join(body) + "\n}\n"
